@@ -539,3 +539,271 @@ Proof.
   cbn [toks tcons app length].
   repeat (f_equal; try lia).
 Qed.
+
+(* ================================================================ the parser: one element, value = the payload's tokens *)
+Lemma tail_tokens_plain : forall l pos, Forall not_expr_bracket (tail_tokens pos l).
+Proof.
+  induction l as [|[k T] l' IH]; intros pos; [constructor|].
+  cbn [tail_tokens]. constructor.
+  - unfold not_expr_bracket. cbn [tk]. destruct k as [n a r ds| |ix ph]; exact I.
+  - apply Forall_app. split; [apply text_tokens_plain|apply IH].
+Qed.
+Lemma payload_tokens_plain pos P : Forall not_expr_bracket (payload_tokens pos P).
+Proof. unfold payload_tokens. apply Forall_app. split; [apply text_tokens_plain|apply tail_tokens_plain]. Qed.
+
+(* ================================================================ SPEC: the value of a payload *)
+(* a value is a list of strings and tabstop fields; neighbouring strings are one string *)
+Inductive piece := PText (s : str) | PField (i : N) (name : str).
+
+Fixpoint join_pieces (ps : list piece) : list vtok :=
+  match ps with
+  | [] => []
+  | PField i n :: r => VField i n :: join_pieces r
+  | PText s :: r =>
+      match join_pieces r with
+      | VStr s' :: r' => VStr (s ++ s') :: r'
+      | r' => VStr s :: r'
+      end
+  end.
+
+(* a literal run stands for itself with escapes resolved (inner braces kept), a counter for the counter in
+   force under the repeater stack [reps] (C02_numbering_value), `$#` for the wrapped text -- none here --,
+   a field for itself *)
+Definition lit_piece (T : str) : list piece := match T with [] => [] | _ => [PText (unescape T)] end.
+Definition item_piece (reps : list rep) (k : item) : piece :=
+  match k with
+  | INum n _ r ds => PText (pad n (str_of_Z (counter_in_force r (form_base ds) reps)))
+  | IPh => PText []
+  | IField ix ph => PField (opt_default 0 (int_of_str ix)) (match ph with Some p => p | None => [] end)
+  end.
+Definition payload_pieces (reps : list rep) (P : payload) : list piece :=
+  lit_piece (fst P) ++ flat_map (fun kt => item_piece reps (fst kt) :: lit_piece (snd kt)) (snd P).
+Definition payload_value (reps : list rep) (P : payload) : option (list vtok) :=
+  match payload_pieces reps P with [] => None | ps => Some (join_pieces ps) end.
+
+(* ================================================================ stringify_value on the payload's tokens *)
+(* what the accumulator of stringify_value contributes in front of a joined value *)
+Definition with_acc (acc : option str) (v : list vtok) : list vtok :=
+  match acc with
+  | None => v
+  | Some a => match v with VStr s :: r => VStr (a ++ s) :: r | _ => VStr a :: v end
+  end.
+Definition acc_app (acc : option str) (s : str) : option str :=
+  Some (match acc with Some a => a ++ s | None => s end).
+
+Lemma with_acc_text acc s ps : with_acc acc (join_pieces (PText s :: ps)) = with_acc (acc_app acc s) (join_pieces ps).
+Proof.
+  cbn [join_pieces]. destruct acc as [a|]; cbn [with_acc acc_app];
+    destruct (join_pieces ps) as [|[s'|i n] r']; try reflexivity; rewrite app_assoc; reflexivity.
+Qed.
+
+(* states differ from the one we started in only by the two "text was inserted" flags *)
+Definition same_counters (st st' : cst) : Prop :=
+  cs_repeaters st' = cs_repeaters st /\ cs_guard st' = cs_guard st.
+Lemma same_counters_refl st : same_counters st st. Proof. split; reflexivity. Qed.
+Lemma same_counters_trans a b c : same_counters a b -> same_counters b c -> same_counters a c.
+Proof. intros [H1 H2] [H3 H4]. split; congruence. Qed.
+
+Lemma sva_text_tokens env pos T acc st r :
+  stringify_value_acc env (text_tokens pos T ++ r) acc st =
+  stringify_value_acc env r (match T with [] => acc | _ => acc_app acc (unescape T) end) st.
+Proof.
+  unfold text_tokens.
+  assert (HW : Forall (fun c => is_space c = true) (ws_part T)) by apply span_all.
+  pose proof (ws_body T) as HT.
+  pose proof (unescape_ws (ws_part T) (body_part T) HW) as HU. rewrite HT in HU.
+  destruct (ws_part T) as [|w W] eqn:EW; destruct (body_part T) as [|b B] eqn:EB.
+  - cbn [app] in HT. subst T. reflexivity.
+  - cbn [app] in HT. subst T. cbn [app stringify_value_acc tk stringify]. reflexivity.
+  - rewrite app_nil_r in HT. clear EW EB. subst T. cbn [app stringify_value_acc stringify tk].
+    rewrite HU. cbn [unescape]. rewrite app_nil_r. reflexivity.
+  - clear EW EB. subst T. cbn [app] in HU |- *. cbn [stringify_value_acc stringify tk app].
+    rewrite HU. unfold acc_app. destruct acc as [a0|]; [rewrite <- app_assoc|]; reflexivity.
+Qed.
+
+Lemma sva_item env k nx pos e acc st r :
+  ce_text env = WNone -> item_ok k nx = true ->
+  exists st1, same_counters st st1 /\
+  stringify_value_acc env (mkTok (item_kind k) pos e :: r) acc st =
+  match item_piece (cs_repeaters st) k with
+  | PText s => stringify_value_acc env r (acc_app acc s) st1
+  | PField i n =>
+      match stringify_value_acc env r None st1 with
+      | Ok (l, st') => Ok ((match acc with Some s => [VStr s] | None => [] end) ++ VField i n :: l, st')
+      | ParseErr k p => ParseErr k p | Internal k => Internal k | OutOfFuel => OutOfFuel
+      end
+  end.
+Proof.
+  intros Htext Hok. destruct k as [n a rv ds| |ix ph].
+  - exists st. split; [apply same_counters_refl|].
+    cbn [item_kind item_piece stringify_value_acc tk].
+    rewrite (numbering_value env (mkTok (TRepeaterNumber (N.of_nat n) rv (form_base ds) 0) pos e)
+               (N.of_nat n) rv (form_base ds) st eq_refl).
+    rewrite Nat2N.id. reflexivity.
+  - exists (set_text_inserted (set_inserted st)). split; [split; reflexivity|].
+    cbn [item_kind item_piece stringify_value_acc tk]. unfold stringify. cbn [tk].
+    unfold get_text_at. rewrite Htext. reflexivity.
+  - exists st. split; [apply same_counters_refl|].
+    cbn [item_ok] in Hok. apply andb_prop in Hok. destruct Hok as [Hok _].
+    apply andb_prop in Hok. destruct Hok as [Hne Hd].
+    destruct (int_of_str_some ix (forallb_all_digits ix Hd)) as [i Ei].
+    { destruct ix; [discriminate|congruence]. }
+    cbn [item_kind item_piece stringify_value_acc tk]. rewrite Ei. cbn [opt_default]. reflexivity.
+Qed.
+
+Lemma sva_tail env : forall l d pos acc st,
+  ce_text env = WNone -> tail_ok d l = true ->
+  exists st', same_counters st st' /\
+  stringify_value_acc env (tail_tokens pos l) acc st =
+  Ok (with_acc acc (join_pieces (flat_map (fun kt => item_piece (cs_repeaters st) (fst kt) :: lit_piece (snd kt)) l)), st').
+Proof.
+  induction l as [|[k T] l' IH]; intros d pos acc st Htext Hok.
+  - exists st. split; [apply same_counters_refl|]. cbn [tail_tokens stringify_value_acc flat_map join_pieces].
+    destruct acc; reflexivity.
+  - cbn [tail_ok] in Hok. apply andb_prop in Hok. destruct Hok as [Hk Hrest].
+    destruct (walk d T) as [d'|] eqn:Hw; [|discriminate].
+    cbn [tail_tokens flat_map fst snd].
+    destruct (sva_item env k _ pos (pos + length (render_item k))%nat acc st
+                (text_tokens (pos + length (render_item k)) T ++ tail_tokens (pos + length (render_item k) + length T) l')
+                Htext Hk) as [st1 [Hs1 E1]].
+    rewrite E1. clear E1.
+    destruct Hs1 as [Hr1 Hg1].
+    destruct (item_piece (cs_repeaters st) k) as [s|i n] eqn:Ep.
+    + rewrite sva_text_tokens.
+      destruct (IH d' (pos + length (render_item k) + length T)%nat
+                  (match T with [] => acc_app acc s | _ => acc_app (acc_app acc s) (unescape T) end) st1 Htext Hrest)
+        as [st' [Hs' E']].
+      exists st'. split; [eapply same_counters_trans; [split; eassumption|exact Hs']|].
+      rewrite E'. rewrite Hr1. f_equal. f_equal.
+      cbn [app]. rewrite with_acc_text.
+      destruct T as [|t0 T']; [reflexivity|]. cbn [lit_piece app]. rewrite with_acc_text. reflexivity.
+    + rewrite sva_text_tokens.
+      destruct (IH d' (pos + length (render_item k) + length T)%nat
+                  (match T with [] => None | _ => acc_app None (unescape T) end) st1 Htext Hrest)
+        as [st' [Hs' E']].
+      exists st'. split; [eapply same_counters_trans; [split; eassumption|exact Hs']|].
+      rewrite E'. rewrite Hr1. f_equal. f_equal.
+      cbn [app join_pieces].
+      assert (Hv : with_acc (match T with [] => None | _ :: _ => acc_app None (unescape T) end)
+                     (join_pieces (flat_map (fun kt => item_piece (cs_repeaters st) (fst kt) :: lit_piece (snd kt)) l')) =
+                   join_pieces (lit_piece T ++ flat_map (fun kt => item_piece (cs_repeaters st) (fst kt) :: lit_piece (snd kt)) l')).
+      { destruct T as [|t0 T']; [reflexivity|]. cbn [lit_piece app]. rewrite <- with_acc_text. reflexivity. }
+      rewrite Hv. destruct acc; reflexivity.
+Qed.
+
+Lemma stringify_payload env pos P st :
+  ce_text env = WNone -> payload_ok P = true ->
+  exists st', same_counters st st' /\
+  stringify_value env (payload_tokens pos P) st = Ok (join_pieces (payload_pieces (cs_repeaters st) P), st').
+Proof.
+  destruct P as [T0 l]. unfold payload_ok, payload_tokens, payload_pieces, stringify_value. cbn [fst snd].
+  intros Htext Hok. destruct (walk 0 T0) as [d|] eqn:Hw; [|discriminate].
+  rewrite sva_text_tokens.
+  destruct (sva_tail env l d (pos + length T0)%nat (match T0 with [] => None | _ => acc_app None (unescape T0) end) st Htext Hok)
+    as [st' [Hs' E']].
+  exists st'. split; [exact Hs'|]. rewrite E'. f_equal. f_equal.
+  destruct T0 as [|t0 T']; [reflexivity|]. cbn [lit_piece app]. rewrite <- with_acc_text. reflexivity.
+Qed.
+
+(* ================================================================ convert: the element with its value *)
+Lemma tail_tokens_cons k T l pos : exists t r, tail_tokens pos ((k, T) :: l) = t :: r.
+Proof. cbn [tail_tokens]. eexists. eexists. reflexivity. Qed.
+
+Lemma payload_tokens_shape pos reps P :
+  (payload_tokens pos P = [] /\ payload_pieces reps P = []) \/
+  (exists t r p ps, payload_tokens pos P = t :: r /\ payload_pieces reps P = p :: ps).
+Proof.
+  destruct P as [T0 l]. unfold payload_tokens, payload_pieces. cbn [fst snd].
+  destruct T0 as [|t0 T'].
+  - destruct l as [|[k T] l'].
+    + left. split; reflexivity.
+    + right. cbn [lit_piece app flat_map fst snd].
+      replace (text_tokens pos []) with (@nil token) by reflexivity. cbn [app tail_tokens].
+      do 4 eexists. split; reflexivity.
+  - right. destruct (text_tokens_nonempty pos (t0 :: T') ltac:(discriminate)) as [t [r E]]. rewrite E.
+    cbn [lit_piece app]. do 4 eexists. split; reflexivity.
+Qed.
+
+Lemma conv_nested env (name : str) P pos nt st :
+  name <> [] -> tk nt = TLiteral name -> ce_text env = WNone -> payload_ok P = true ->
+  exists st', same_counters st st' /\
+  conv_stmt env (TElem (Some [nt]) None (Some (payload_tokens pos P)) None false []) st =
+    Ok ([ANode (Some name) (payload_value (cs_repeaters st) P) None None [] false], st').
+Proof.
+  intros Hne Hn Htext Hok.
+  destruct name as [|c name']; [congruence|].
+  destruct (stringify_payload env pos P st Htext Hok) as [st' [Hs' E']].
+  unfold payload_value.
+  destruct (payload_tokens_shape pos (cs_repeaters st) P) as [[Et Ep]|[t [r [p [ps [Et Ep]]]]]].
+  - exists st. split; [apply same_counters_refl|]. rewrite Et, Ep.
+    cbn. unfold stringify. rewrite Hn. cbn. rewrite app_nil_r. reflexivity.
+  - exists st'. split; [exact Hs'|]. rewrite Ep.
+    cbn [conv_stmt nonempty]. cbn [stringify_name bind]. unfold stringify at 1. rewrite Hn.
+    cbn [bind]. rewrite Et. cbn [nonempty]. rewrite <- Et. rewrite E'. rewrite Ep.
+    cbn. rewrite app_nil_r. reflexivity.
+Qed.
+
+(* ================================================================ text_nested: tokenize + parse + convert *)
+Theorem text_nested jsx env mr name P :
+  name_ok name -> payload_ok P = true -> ce_text env = WNone ->
+  parse_abbr jsx env mr (name ++ c_lbrace :: render P ++ [c_rbrace]) =
+    Ok [ANode (Some name) (payload_value [] P) None None [] false].
+Proof.
+  intros Hname Hb Htext. unfold parse_abbr.
+  rewrite (tokenize_nested name P Hname Hb). unfold nested_abbr_tokens.
+  set (n := length name).
+  set (nt := mkTok (TLiteral name) 0 n).
+  set (open := mkTok (TBracket true BExpr) n (n + 1)).
+  set (close := mkTok (TBracket false BExpr) (n + 1 + length (render P)) (n + 1 + length (render P) + 1)).
+  set (inner := payload_tokens (n + 1) P).
+  change ([nt; open] ++ inner ++ [close]) with (nt :: open :: inner ++ [close]).
+  rewrite (parse_single jsx _ _ (block_text jsx nt open close name inner eq_refl eq_refl eq_refl
+                                  (payload_tokens_plain _ _))).
+  unfold convert, leaf_node.
+  cbn [lf_name lf_attrs lf_value lf_repeat lf_self].
+  cbn [conv_list]. unfold inner.
+  destruct (conv_nested env name P (n + 1) nt
+              (mkCst false match mr with Some m => Z.of_N m | None => 1000000%Z end [] false)
+              (proj1 Hname) eq_refl Htext Hb) as [st' [_ E]].
+  rewrite E. cbn [bind app cs_repeaters]. rewrite Htext. reflexivity.
+Qed.
+
+(* the parser's own result: ONE element whose value is the payload's tokens, in order *)
+Theorem parse_nested jsx name P :
+  name_ok name -> payload_ok P = true ->
+  exists toks, tokenize (name ++ c_lbrace :: render P ++ [c_rbrace]) = TOk toks /\
+    parse jsx toks =
+      POk [TElem (Some [mkTok (TLiteral name) 0 (length name)]) None
+                 (Some (payload_tokens (length name + 1) P)) None false []].
+Proof.
+  intros Hname Hb. eexists. split; [apply (tokenize_nested name P Hname Hb)|].
+  unfold nested_abbr_tokens.
+  set (n := length name).
+  set (nt := mkTok (TLiteral name) 0 n).
+  set (open := mkTok (TBracket true BExpr) n (n + 1)).
+  set (close := mkTok (TBracket false BExpr) (n + 1 + length (render P)) (n + 1 + length (render P) + 1)).
+  set (inner := payload_tokens (n + 1) P).
+  change ([nt; open] ++ inner ++ [close]) with (nt :: open :: inner ++ [close]).
+  rewrite (parse_single jsx _ _ (block_text jsx nt open close name inner eq_refl eq_refl eq_refl
+                                  (payload_tokens_plain _ _))).
+  reflexivity.
+Qed.
+
+(* the text bracket opened after the name is closed by exactly the LAST `}` of the abbreviation: the
+   closing Bracket token is the last token and spans the last character; no token between is a brace *)
+Theorem nested_closing_brace name P :
+  name_ok name -> payload_ok P = true ->
+  let s := name ++ c_lbrace :: render P ++ [c_rbrace] in
+  exists inner,
+    tokenize s = TOk (mkTok (TLiteral name) 0 (length name)
+                      :: mkTok (TBracket true BExpr) (length name) (length name + 1)
+                      :: inner ++ [mkTok (TBracket false BExpr) (length s - 1) (length s)]) /\
+    Forall not_expr_bracket inner.
+Proof.
+  intros Hname Hb s. exists (payload_tokens (length name + 1) P). split; [|apply payload_tokens_plain].
+  unfold s. rewrite (tokenize_nested name P Hname Hb). unfold nested_abbr_tokens. cbn [app].
+  f_equal. f_equal. f_equal. f_equal.
+  assert (Hlen : length (name ++ c_lbrace :: render P ++ [c_rbrace]) = (length name + 1 + length (render P) + 1)%nat).
+  { rewrite app_length. cbn [length]. rewrite app_length. cbn [length]. unfold char. lia. }
+  rewrite Hlen. rewrite Nat.add_sub. reflexivity.
+Qed.
